@@ -3,5 +3,6 @@ CONSTANTS
   MaxDepth = 64
   Alphabet = @ALPHABET@
   MaxLen = @MAXLEN@
-  StrCap = @STRCAP@
-INVARIANTS ValsOrdered ValsValid CountOK CleanEOF CleanEnd Terminals
+  MaxOps = @MAXOPS@
+INVARIANTS Agrees CleanEnd
+PROPERTIES Progress Consumes
